@@ -26,6 +26,18 @@ CHECKS = {
              "getVariable/setVariable, spawn (sees none of the starter's locals) and random letter case. Co-running scheduled scripts use the "
              "same local names, so any leak between contexts or into the wrong namespace shows in the traces. Sampling, not proof.",
         note="execVM is exercised by the C16 check (needs files); trusted: reference interpreter, generator's static typing discipline."),
+    "C04": dict(
+        level="fault_enumeration", design="DESIGN.md §3 C04",
+        technique=TECH + ": one error per run planted in every syntactic role or injected by the executor hook after dynamic instruction k for every k of a sampled program; reference interpreter with error completion plus run-result/flag rules",
+        text="Engine A: typed random programs with at most one erroring operation (harness operator fault__ in statement, operand, condition, "
+             "loop-body-result, last-value, handler-code and spawned-script position, or a natural error raised by an iteration behaviour), "
+             "0..n nested except__ handlers, 1-3 runs on one VM, unscheduled or sliced; judged against the reference interpreter: no later "
+             "statement runs, the nearest handler is entered exactly once with the error in _exception and execution continues after it, an "
+             "unhandled error fails the run with a stack trace naming the failing statement, a fault-free run is never reported as failed, the "
+             "error flag is clear afterwards. Engine B: for sampled programs PRE;{BODY} except__ {H};POST the hook raises an error after "
+             "instruction k for EVERY k of the fault-free run (complete enumeration per program), followed by a second run on the same VM.",
+        note="Fault positions are enumerated completely per sampled program (engine B); programs are sampled. Exact columns of reported "
+             "locations are C14's subject and not asserted; CLI process exit status is not asserted."),
     "C12": dict(
         level="exploration", design="DESIGN.md §3 C12",
         technique=TECH + ": seeded slice schedules and virtual clock over the real scheduler loop, rules R1-R7 over the recorded visit/slice/trace history",
